@@ -51,7 +51,7 @@ def run_property(prop: str, tier: str, seed: int, only_rule: str | None = None) 
     if tier == "thorough" and not only_rule and not os.environ.get("CIJSA_NO_SELFTEST"):
         # self-validation of the checker: every registered mutant of the current tree must be reported,
         # every registered behaviour-preserving rewrite must stay silent (scratch copies, removed at once)
-        if ctx.violations or ctx.errors:
+        if ctx.split_known()[0] or ctx.errors:
             ctx.extra["self_validation"] = "skipped: the base tree already violates or could not be analysed"
         else:
             from . import selftest
